@@ -159,13 +159,58 @@ def resolveMacroIn : List Obj → Bytes → Bytes → List Bytes → Lookup
     | some r => r
     | none => resolveMacroIn os mname objName tokens
 
-/-- MacroProcessor::ResolveMacro (:88-192) over the given resolver list.  The default resolvers
-    (`icinga`, `env`) are not modelled: the harness never names them and sets no global `Vars`. -/
+/-- MacroProcessor::ResolveMacro (:88-192) over the given resolver list alone (`resolveMacroFull` adds the
+    default resolvers `icinga` and `env`). -/
 def resolveMacro (objs : List Obj) (mname : Bytes) : Lookup :=
   let toks := splitOn DOT [] mname
   match toks with
   | t0 :: t1 :: rest => resolveMacroIn objs mname t0 (t1 :: rest)   -- :98-101
   | _ => resolveMacroIn objs mname [] toks
+
+/-! ### The default resolvers (macroprocessor.cpp:78-86, consulted after the given list, :104-105) -/
+
+def sEnv : Bytes := [101, 110, 118]                       -- "env"
+def sIcinga : Bytes := [105, 99, 105, 110, 103, 97]       -- "icinga"
+
+def assocB (l : List (Bytes × Bytes)) (k : Bytes) : Option Bytes :=
+  match l with
+  | [] => none
+  | (k', v) :: r => if k' = k then some v else assocB r k
+
+def joinDots : List Bytes → Bytes
+  | [] => []
+  | [x] => x
+  | x :: y :: r => x ++ DOT :: joinDots (y :: r)
+
+/-- `{ "icinga", IcingaApplication::GetInstance() }`: the global `Vars` as custom variables (short macros are
+    resolved from them like from any other level) and `{ "env", l_EnvResolver, false }`: the environment of the
+    daemon, `ResolveShortMacros = false`. -/
+structure Defaults where
+  globals : List (Bytes × Val) := []      -- IcingaApplication::GetVars()
+  env : List (Bytes × Bytes) := []        -- what `getenv` answers
+  deriving Repr, DecidableEq
+
+def Defaults.icinga (d : Defaults) : Obj := { rname := sIcinga, vars := d.globals, attrs := [] }
+
+/-- The `env` resolver (:107-137, envresolver.cpp:11-20): reached only by the prefixed form `$env.NAME$` — for a
+    short macro it is skipped (`if (!resolver.ResolveShortMacros) continue;`, :110-112); the value is the text of
+    the variable, never resolved again (`recursive_macro` stays false).  `EnvResolver` has no reflection fields. -/
+def envResolve (env : List (Bytes × Bytes)) (objName : Bytes) (tokens : List Bytes) : Lookup :=
+  if objName = sEnv then
+    match assocB env (joinDots tokens) with
+    | some v => .found (.str v) false
+    | none => .notFound
+  else .notFound
+
+/-- MacroProcessor::ResolveMacro (:88-192) over the given resolver list followed by the default resolvers. -/
+def resolveMacroFull (objs : List Obj) (dflt : Defaults) (mname : Bytes) : Lookup :=
+  let toks := splitOn DOT [] mname
+  let (objName, tokens) : Bytes × List Bytes := match toks with
+    | t0 :: t1 :: rest => (t0, t1 :: rest)                                  -- :98-101
+    | _ => ([], toks)
+  match resolveMacroIn (objs ++ [dflt.icinga]) mname objName tokens with
+  | .notFound => envResolve dflt.env objName tokens
+  | r => r
 
 /-! ## Shell escaping (utility.cpp:1228-1257, macroprocessor.cpp:421-439) -/
 
@@ -715,6 +760,25 @@ def processFinished (suffix : Bytes) (exit : Int) (rawOutput : Bytes) : CrObs :=
   let out := if exit > 3 then out ++ suffix else out                        -- :72-85 (`suffix` = the marker text)
   let co := parseCheckOutput out                                            -- :87
   { state := exitToState exit, exit := exit, output := co.1, perfdata := splitPerfdata co.2 }
+
+/-! ## PluginUtility::ExecuteCommand (pluginutility.cpp:25-84) -/
+
+/-- What `ExecuteCommand` does with the outcome of `ResolveArguments`: a failure is reported through the callback as a
+    finished process with exit status 3 and the diagnostic as its output, and NO process is started (:29-46);
+    otherwise the resolved command is handed to `Process` (:77-83). -/
+inductive Exec
+  | failed (cr : CrObs)        -- callback(Empty, pr) with pr.ExitStatus = 3, pr.Output = message; nothing ran
+  | started (cmd : CmdOut)
+  deriving Repr, DecidableEq
+
+def executeCommand (look : Bytes → Lookup) (cmd : Cmd) (args : Option (List ArgSpec)) (diagnostic : Bytes) : Exec :=
+  match resolveArguments look 0 cmd args with
+  | .error _ => .failed (processFinished [] 3 diagnostic)
+  | .ok c => .started c
+
+def Exec.ran : Exec → Bool
+  | .failed _ => false
+  | .started _ => true
 
 /-! ## How the plugin process ended (process.cpp:1049-1190, POSIX branch) -/
 
